@@ -78,14 +78,14 @@ ASSUMPTIONS = [
     "compose(MProcess, StateEnsemble) / compose(Povm, StateEnsemble) which append the later measurement's axis",
     "a reported shape that merges adjacent axes of the earliest-first shape (e.g. the flat Povm of Povm o MProcess) is accepted",
     "probabilities <= 10*eps_zero may be zeroed and the rest renormalised (documented threshold): tolerance widened to "
-    "2*eps_zero*m*steps there; the post-state returned for an outcome of probability < 1e-6 is not judged separately",
+    "2*eps_zero*m*steps there; the post-state returned for an outcome of probability <= 2*eps_zero is not judged, and above "
+    "that its error is weighted by min(1, p*tol_pass/1e-14) (round-off of sigma/p)",
     "Lueders mode (1): 'spectral projectors' = eigenspace projectors; eigenvalues closer than 1e-9 count as one eigenvalue "
     "(violations there carry the key suffix ':degenerate-eigenvalues'); an element with a gap in (1e-9, 1e-3) is not judged",
 ]
 
 TOL = (1e-9, 1e-6)
 TOL_SQRT = (1e-7, 1e-4)
-P_POST = 1e-6  # post-states judged separately for outcomes with at least this probability
 VALID = {("Gate", "Gate"), ("Gate", "MProcess"), ("MProcess", "Gate"), ("MProcess", "MProcess"), ("Gate", "State"),
          ("Gate", "StateEnsemble"), ("MProcess", "State"), ("MProcess", "StateEnsemble"), ("Povm", "Gate"),
          ("Povm", "MProcess"), ("Povm", "State"), ("Povm", "StateEnsemble")}
@@ -463,15 +463,24 @@ class Judge:
             if ctx.num(f"{prefix}:prob", float(np.max(np.abs(p_got - p_ref))), tp, tf, key=f"{prefix}:prob{suffix}", info=dict(info, truncation_zone=trunc)) == "fail":
                 ok = False
             if exp["t"] == "StateEnsemble":
-                e_post, n_j = 0.0, 0
+                # normalised post-states of every outcome that is certainly not truncated (p > 2 eps_zero); sigma/p carries
+                # the round-off ~1e-15/p, so the error is weighted by min(1, p*tol_pass/1e-14) (full weight for p >= 1e-14/tol_pass)
+                e_post, e_norm, n_j = 0.0, 0.0, 0
+                got["weights"] = [min(1.0, pr * tp / 1e-14) if pr > 2 * eps else 0.0 for pr in p_ref]
                 for pr, sg, rq in zip(p_ref, exp["sig"], got["rhos"]):
-                    if pr >= P_POST:
-                        e_post = max(e_post, float(np.max(np.abs(rq - sg / pr))))
+                    if pr > 2 * eps:
+                        wgt = min(1.0, pr * tp / 1e-14)
+                        e_post = max(e_post, wgt * float(np.max(np.abs(rq - sg / pr))))
+                        trq = np.trace(rq)
+                        e_norm = max(e_norm, wgt * float(np.max(np.abs(rq / trq - sg / pr))) if abs(trq) > 1e-12 else float("inf"))
                         n_j += 1
                     else:
-                        ctx.count("post-state-not-judged(p<1e-6)")
+                        ctx.count("post-state-not-judged(p<=2*eps_zero)")
                 if n_j:
-                    if ctx.num(f"{prefix}:post-state", e_post, tp, tf, key=f"{prefix}:post-state-not-normalised-or-wrong{suffix}", info=dict(info, judged=n_j)) == "fail":
+                    cls = "post-state-not-normalised" if (e_post >= tf and e_norm <= tp) else "post-state-wrong"
+                    if trunc:
+                        cls += ":truncated-outcomes-present"
+                    if ctx.num(f"{prefix}:post-state", e_post, tp, tf, key=f"{prefix}:{cls}{suffix}", info=dict(info, judged=n_j, eps_zero=eps)) == "fail":
                         ok = False
                 else:
                     ctx.skip(f"{prefix}:post-state")
@@ -483,9 +492,11 @@ class Judge:
                              info=dict(info, reported=list(rep), earliest_first=list(fin))):
                 ok = False
         # --- physicality of the result
-        if physical:
+        if physical and ok:
             if not self.physical(prefix, result, got, info, suffix, (tp, tf)):
                 ok = False
+        elif physical:
+            ctx.count("physicality-not-judged(values already wrong)")
         if not ok:
             self.flag(label, result)
         return ok
@@ -498,9 +509,9 @@ class Judge:
         if t == "StateEnsemble":
             worst = 0.0
             n = 0
-            for p, r in zip(got["ps"], got["rhos"]):
-                if p >= P_POST:
-                    worst = max(worst, abs(np.trace(r) - 1), ref.psd_violation(r), ref.herm_violation(r))
+            for wgt, r in zip(got.get("weights", [0.0] * len(got["rhos"])), got["rhos"]):
+                if wgt > 0:  # same outcomes and round-off weighting as the post-state comparison
+                    worst = max(worst, wgt * max(abs(np.trace(r) - 1), ref.psd_violation(r), ref.herm_violation(r)))
                     n += 1
             if not n:
                 ctx.skip(f"{prefix}:physical")
@@ -521,6 +532,28 @@ class Judge:
             v = gen.ref_violations(result)
             ctx.count("physical:gen.ref_violations")
         return ctx.num(f"{prefix}:physical", max(v["eq"], v["ineq"]), TOL[0], TOL[1], key=f"{prefix}:not-physical{suffix}", info=dict(info or {}, **v)) != "fail"
+
+
+def relaxed(obj):
+    """copy of a quara operand with is_physicality_required=False (same raw arrays)"""
+    Q = gen.q()
+    t = gen.type_of(obj)
+    if t == "State":
+        return Q.State(obj.composite_system, np.array(obj.vec, dtype=np.float64), is_physicality_required=False)
+    if t == "Gate":
+        return Q.Gate(obj.composite_system, np.array(ref.dense(obj.hs).real, dtype=np.float64), is_physicality_required=False)
+    if t == "Povm":
+        return Q.Povm(obj.composite_system, [np.array(v, dtype=np.float64) for v in obj.vecs], is_physicality_required=False)
+    if t == "MProcess":
+        return Q.MProcess(obj.composite_system, [np.array(ref.dense(h).real, dtype=np.float64) for h in obj.hss], shape=obj.shape,
+                          is_physicality_required=False, eps_zero=obj.eps_zero)
+    if t == "StateEnsemble":
+        from quara.objects.multinomial_distribution import MultinomialDistribution
+        from quara.objects.state_ensemble import StateEnsemble
+
+        pd = MultinomialDistribution(np.array(obj.prob_dist.ps, dtype=np.float64), shape=obj.prob_dist.shape)
+        return StateEnsemble([relaxed(s) for s in obj.states], pd, eps_zero=obj.eps_zero)
+    raise TypeError(t)
 
 
 def operands_physical(objs, tol=1e-9):
@@ -574,10 +607,10 @@ def install(ctx):
     J = Judge(ctx)
 
     # ---- binary dispatcher: the step oracle
-    def post_step(result, snap, elem1, elem2):
+    def post_step(result, snap, elem1, elem2, from_exc=False):
         t1, t2 = gen.type_of(elem1), gen.type_of(elem2)
         if (t1, t2) not in VALID:
-            return
+            return True
         pair = f"{t1}*{t2}"
         a, b = read(elem1, J.frames), read(elem2, J.frames)
         exp = ref_compose(a, b)
@@ -595,10 +628,12 @@ def install(ctx):
         phys = all(abs(np.trace(x["rho"]) - 1) <= 1e-9 for x in (a, b) if x["t"] == "State")
         if not phys:
             ctx.count("step:non-physical-placeholder-operand")
-        J.compare(f"compose:{pair}", f"{pair}", result, exp, eps_of(elem1, elem2), steps=1, variants=var, physical=phys,
-                  info={"pair": pair, "dim": int(csys_of(elem1).dim)})
-        ctx.truth("compose:exception", True)
+        ok = J.compare(f"compose:{pair}", f"{pair}", result, exp, eps_of(elem1, elem2), steps=1, variants=var, physical=phys,
+                       info={"pair": pair, "dim": int(csys_of(elem1).dim)})
+        if not from_exc:
+            ctx.truth("compose:exception", True)
         ctx.count(f"step:{pair}")
+        return ok
 
     def exc_step(exc, snap, elem1, elem2):
         t1, t2 = gen.type_of(elem1), gen.type_of(elem2)
@@ -620,16 +655,29 @@ def install(ctx):
         J.flag(f"{t1}*{t2}")
         info = {"message": str(exc)[:200], "dim": int(csys_of(elem1).dim)}
         cls = ""
-        if t1 == "MProcess" and t2 in ("State", "StateEnsemble") and "physically correct" in str(exc):
-            # which outcomes exist?  A post-state sigma_x/p_x carries the round-off 1e-16/p_x; quara then tests it at atol=1e-13
+        if "physically correct" in str(exc):
+            # quara's own physicality test refused a result.  The values it computes are judged all the same (so that
+            # this exception cannot mask another break): the same step on copies of the operands that do not demand the
+            # test.  If those values are wrong, their keys explain the exception and it gets no key of its own.
             try:
+                r1, r2 = relaxed(elem1), relaxed(elem2)
+                res = ops._compose_qoperations(r1, r2)  # unobserved: hooks are paused inside a contract
+            except Exception as e2:  # noqa: BLE001
+                ctx.count("exception:relaxed-rerun-raised:" + type(e2).__name__)
+                res = None
+            if res is not None:
+                ctx.count("exception:relaxed-rerun-judged")
+                if not post_step(res, None, r1, r2, from_exc=True):
+                    ctx.count("exception:explained-by-wrong-values")
+                    ctx.skip("compose:exception")
+                    return
+            if t1 == "MProcess" and t2 in ("State", "StateEnsemble"):
+                # values right: a post-state sigma_x/p_x carries the round-off 1e-16/p_x, which quara then tests at atol=1e-13
                 pr = tw_probs(ref_compose(read(elem1, J.frames), read(elem2, J.frames)))
                 low = pr[(pr > eps_of(elem1, elem2)) & (pr < 1e-2)]
                 info["reference_probabilities_below_1e-2"] = low
                 if low.size:
                     cls = "low-probability-outcome:"
-            except Exception:
-                pass
         ctx.truth("compose:exception", False, key=f"compose:{t1}*{t2}:{cls}" + ctx.exc_key(exc), info=info)
 
     hs.function(ops, "_compose_qoperations", post=post_step, on_exc=exc_step)
@@ -845,11 +893,11 @@ class Builder:
 
     def p_target(self):
         r = self.rng.random()
-        return 0.0 if r < 0.7 else float(self.rng.choice([3e-9, 3e-8, 1e-7, 1e-5]))
+        return 0.0 if r < 0.7 else float(self.rng.choice([3e-9, 3e-8, 1e-7, 1e-5, 1e-3]))
 
-    def state(self):
+    def state(self, kind=None):
         rng, d = self.rng, self.d
-        kind = str(rng.choice(["pure", "pure", "mixed", "rankdef"]))
+        kind = kind or str(rng.choice(["pure", "pure", "mixed", "rankdef"]))
         if kind == "pure":
             v = rng.standard_normal(d) + 1j * rng.standard_normal(d)
             v = v / np.linalg.norm(v)
@@ -878,16 +926,16 @@ class Builder:
         self.raw.append(np.array(ks))
         return obj, tw_gate(sup_of_kraus(ks, d))
 
-    def povm_ops(self, m):
+    def povm_ops(self, m, kind=None, p_target=None):
         """(kind, Ms, phis|None)"""
         rng, d = self.rng, self.d
         kinds = ["generic", "lowrank", "projective"] + (["rank1", "rank1"] if m >= d else [])
-        kind = str(rng.choice(kinds))
+        kind = kind or str(rng.choice(kinds))
         phis = None
         if kind == "rank1":
             phis = rank1_vectors(d, m, rng)
             if self.v is not None:
-                phis = aim_element_zero(phis, self.v, rng, self.p_target())
+                phis = aim_element_zero(phis, self.v, rng, self.p_target() if p_target is None else p_target)
             Ms = [np.outer(p, p.conj()) for p in phis]
         elif kind == "projective":
             u = ref.rand_unitary(d, rng) if rng.random() < 0.8 else np.eye(d, dtype=complex)
@@ -913,10 +961,10 @@ class Builder:
         self.raw.append(np.array(Ms))
         return obj, tw_povm(Ms)
 
-    def mprocess(self, m):
+    def mprocess(self, m, kind=None, eps_zero=None, povm_kind=None, p_target=None, track=1):
         rng, d, ctx = self.rng, self.d, self.ctx
-        kind = str(rng.choice(["generic", "generic", "lueders", "from-povm"]))
-        eps_zero = 1e-8 if rng.random() < 0.9 else 1e-6
+        kind = kind or str(rng.choice(["generic", "generic", "lueders", "from-povm"]))
+        eps_zero = eps_zero or (1e-8 if rng.random() < 0.9 else 1e-6)
         obj = None
         if kind == "generic":
             sets = ref.rand_instrument(d, m, rng, [int(rng.integers(1, 3)) for _ in range(m)])
@@ -924,13 +972,13 @@ class Builder:
             self.v = None
             self.raw.append(np.concatenate([np.array(ks).ravel() for ks in sets]))
         elif kind == "lueders":
-            pk, Ms, phis = self.povm_ops(m)
+            pk, Ms, phis = self.povm_ops(m, povm_kind, p_target)
             us = [ref.rand_unitary(d, rng) for _ in range(m)]
             sets = [[u @ ref.sqrtm_psd(M)] for u, M in zip(us, Ms)]
             Ss = [sup_of_kraus(ks, d) for ks in sets]
             if self.v is not None and m > 1:
-                w = sets[1][0] @ self.v
-                self.v = w / np.linalg.norm(w) if np.linalg.norm(w) > 1e-3 else None
+                w = sets[track][0] @ self.v
+                self.v = w / np.linalg.norm(w) if np.linalg.norm(w) > 1e-6 else None
             kind = f"lueders:{pk}"
             self.raw.append(np.concatenate([np.array(ks).ravel() for ks in sets]))
         else:
@@ -982,13 +1030,16 @@ def outcome_counts(pattern, rng):
     return dict(zip(idx, cnt))
 
 
-def run_chain_case(ctx, hs, J, c_sys, pattern, shape_name, comp):
+def run_chain_case(ctx, hs, J, c_sys, pattern, shape_name, comp, plan=None):
+    """plan: optional {position: kwargs of the Builder method} and {"counts": {...}} forcing operand kinds (edge shards)"""
     rng = ctx.rng()
     B = Builder(ctx, J, hs, c_sys, rng)
-    counts = outcome_counts(pattern, rng)
+    plan = plan or {}
+    counts = plan.get("counts") or outcome_counts(pattern, rng)
     objs, tws = [], []
     for i, c in enumerate(pattern):
-        make = {"S": B.state, "G": B.gate, "M": lambda: B.mprocess(counts[i]), "P": lambda: B.povm(counts[i])}[c]
+        kw = plan.get(i, {})
+        make = {"S": lambda: B.state(**kw), "G": B.gate, "M": lambda: B.mprocess(counts[i], **kw), "P": lambda: B.povm(counts[i])}[c]
         ok, val = ctx.attempt(make)
         if not ok:
             # quara's constructor refused a generator-made operand (its verdicts are property C01): no case
@@ -1106,7 +1157,7 @@ def run_chain_case(ctx, hs, J, c_sys, pattern, shape_name, comp):
             ctx.num("chain:to_povm-vs-reference", e if np.isfinite(e) else 1e300, *tol0, key="compose:chain:to_povm-differs-from-reference:" + cstr(results[0][2]), info=info)
         else:
             ctx.violation("MProcess.to_povm:" + ctx.exc_key(pv), info)
-    ctx.nontrivial("chain", pattern, shape_name, [counts[i] for i in sorted(counts)], [np.asarray(r).ravel() for r in B.raw])
+    ctx.nontrivial("chain" if not plan else "edge", pattern, shape_name, [counts[i] for i in sorted(counts)], [np.asarray(r).ravel() for r in B.raw])
     if ctx.cur_case is not None and ctx.cur_case < 2:
         ctx.sample({"pattern_time_order": pattern, "shape": shape_name, "operands": B.descr, "bracketings": [tname(t) for t, _, _ in results][:8],
                     "result_type": truth["t"], "earliest_first_shape": list(fin), "reference_probabilities": p_ref})
@@ -1225,6 +1276,8 @@ SHAPE_COST = {"S1": 1.0, "S3": 2.0, "S2": 5.0}
 SPLIT = {2: 1, 3: 2, 4: 4, 5: 6}
 REPS = {"quick": {2: 24, 3: 12, 4: 6}, "thorough": {2: 200, 3: 100, 4: 50, 5: 12}}
 GM_CASES = {"quick": 60, "thorough": 600}
+EDGE_CASES = {"quick": 48, "thorough": 480}
+EDGE_PATTERNS = ["SMM", "SMMP", "SMGM", "SMMM", "SGMMP"]
 
 
 def shards(tier, seed):
@@ -1241,6 +1294,8 @@ def shards(tier, seed):
                 sub = pats[part::k]
                 out.append({"kind": "chain", "shape": shape, "n": n, "patterns": sub, "reps": reps,
                             "weight": SHAPE_COST[shape] * len(sub) * reps * (3 ** (n - 2))})
+        e = EDGE_CASES[tier] // (2 if shape == "S2" else 1)
+        out.append({"kind": "edge", "shape": shape, "cases": e, "weight": SHAPE_COST[shape] * e * 9})
         g = GM_CASES[tier] // (2 if shape == "S2" else 1)
         out.append({"kind": "gm", "shape": shape, "cases": g, "weight": SHAPE_COST[shape] * g})
     return out
@@ -1266,6 +1321,28 @@ def run_shard(ctx):
             pats = p["patterns"]
             for i in ctx.cases(len(pats) * p["reps"]):
                 run_chain_case(ctx, hs, J, c_sys, pats[i % len(pats)], p["shape"], comp)
+                J.bad_ids.clear()
+        elif p["kind"] == "edge":
+            # a branch of weight w just above eps_zero entering a second measurement: some of its outcomes fall below the
+            # threshold (zeroed, rest renormalised), the others must keep their probability and a normalised post-state
+            d = int(c_sys.dim)
+            for i in ctx.cases(p["cases"]):
+                rng = ctx.rng(7)
+                pat = EDGE_PATTERNS[i % len(EDGE_PATTERNS)]
+                eps = float(rng.choice([1e-8, 1e-6]))
+                w = eps * float(rng.choice([2.0, 3.0, 10.0, 30.0]))
+                pos = [k for k, c in enumerate(pat) if c in "MP"]
+                pool = [int(x) for x in rng.permutation([x for x in (2, 3, 4, 5) if x != d])]
+                counts = {pos[0]: d}
+                for k in pos[1:]:
+                    counts[k] = pool.pop()
+                if pat.endswith("P") and counts[pos[-1]] > 4:
+                    j = min(pos[1:-1], key=lambda k: counts[k])
+                    counts[j], counts[pos[-1]] = counts[pos[-1]], counts[j]
+                plan = {"counts": counts, 0: {"kind": "pure"},
+                        pos[0]: {"kind": "lueders", "povm_kind": "rank1", "p_target": w, "eps_zero": 1e-8, "track": 0},
+                        pos[1]: {"kind": "generic", "eps_zero": eps}}
+                run_chain_case(ctx, hs, J, c_sys, pat, p["shape"], comp, plan=plan)
                 J.bad_ids.clear()
         else:
             for i in ctx.cases(p["cases"]):
